@@ -251,6 +251,24 @@ pub fn run(tier: &str) -> i32 {
             json!({"threshold": theta, "lazy": lazy, "max_blocks": n, "oracle": "fee percentiles = reference percentiles of the best chain at the last observation point"}),
         );
     }
+    // "answered with respect to that same tip" also means the *content* of the unfiltered
+    // get_utxos answer is the tip's: a transaction sitting at different heights on two forks,
+    // spent further up the heaviest one (the ledger oracle of C01 on a small LEDGER part)
+    {
+        let n = if quick { 4 } else { 5 };
+        let alpha = crate::props::c01::ledger_alphabet(n, &[1], 2);
+        let m = ChainModel {
+            cfg: WorldCfg::regtest(2),
+            alpha,
+            oracle: crate::props::c01::C01 { limits: vec![None] },
+        };
+        let e = explore(&m, &Limits::new(2, if quick { 300 } else { 3000 }));
+        rep.absorb(
+            &format!("LEDGER theta=2 n={} all ledger bodies, <= 2 non-default per history", n),
+            e,
+            json!({"threshold": 2, "max_blocks": n, "oracle": "unfiltered get_utxos of every address = ledger at the named tip"}),
+        );
+    }
     // a tall tree: a short heavy branch is the heaviest chain while a light branch next to it
     // grows by hundreds of blocks (a testnet minimum-difficulty storm); after every arrival
     // and ingestion opportunity the served tip must still be the heavy branch's (the family
